@@ -26,7 +26,8 @@ deriving DecidableEq, Repr, Inhabited
 structure Eqn where
   tok : Nat
   lhs : Lhs
-  refs : List Node          -- find_variables_and_derivatives([rhs])
+  refs : List Node          -- find_variables_and_derivatives([rhs]), a set: `Model.graph` walks it sorted by `str`; the
+                            -- theorems of C08 / C10 only use the node and edge SETS, so any listing of it will do
   numRefs : List Node       -- the same after replacing Quantity objects by numbers (sympy may simplify references away)
   bareQuantity : Bool       -- isinstance(rhs, Quantity)
 deriving DecidableEq, Repr, Inhabited
